@@ -389,7 +389,8 @@ Inductive op :=
 | ODestroy (k : nat)
 | OClose (k : nat)    (* a <close> variable holding the handle goes out of scope: coroutine:__close() *)
 | OGc
-| OEnd (rets : list (list Z)) (nslots : nat).
+| OEnd (rets : list (list Z)) (nslots : nat)
+| OSub (d n : nat).   (* harness: d deeper frames, n temporary coroutines held only in locals there, collections, round robin *)
 
 Definition depth_of (w : option nat) (s : state) : nat :=
   match w with
@@ -457,6 +458,24 @@ Fixpoint unwind (fuel : nat) (rets : list (list Z)) (s : state) : state * list l
       else let '(s2, l2) := unwind f rets s1 in (s2, l1 ++ l2)
     end
   end.
+
+(* [OSub d n]: whoever is current calls d further (padded) frames; the deepest one creates n coroutines
+   whose handles live ONLY in a local array of that frame (bodies: even i function(), odd i
+   function(int64): int64), starts each, forces a collection, checks status / bytes stored / GC
+   registration, resumes them round robin to completion (collecting in between) and destroys them.
+   These coroutines never touch the slots or each other and every one of them is dead and destroyed when
+   the command ends: the state is unchanged and the lines are a function of (who, depth, d, n, build).
+   Worker i is given x = 100 d + i and produces 10 x + 1, 10 x + 2 (yields) and 10 x + 3 (at its end). *)
+Definition sub_val (d i j : nat) : nat := (100 * d + i) * 10 + j + 1.
+
+Definition sub_lines (w : option nat) (dep : nat) (gc : bool) (d n : nat) : list line :=
+  let L := fun tag fs => mkLine w dep tag fs in
+  let ids := seq 0 n in
+  let round := fun j st => map (fun i => L "sub.r" [FN i; FN j; FB true; FB true; FN (sub_val d i j); FS (status_of_state st)]) ids in
+  [L "sub" [FN d; FN n]] ++ round 0 Suspended ++ [L "sub.gc" []] ++
+  map (fun i => L "sub.st" [FN i; FS (status_of_state Suspended); FN 0; FB gc]) ids ++
+  round 1 Suspended ++ [L "sub.gc" []] ++ round 2 Dead ++
+  map (fun i => L "sub.end" [FN i; FB true; FS ""]) ids.
 
 Definition step (o : op) (s : state) : state * list line :=
   if halted s then (s, []) else
@@ -533,6 +552,7 @@ Definition step (o : op) (s : state) : state * list line :=
       let s2 := set_mdepth s1 0 in
       (set_halted s2 true,
        l1 ++ [mkLine None 0 "end" []] ++ map (fun k => mkLine None 0 "status" (status_fields k s2)) (seq 0 n))
+  | OSub dd n => (s, sub_lines w d (gcon s) dd n)
   end.
 
 Fixpoint run (ops : list op) (s : state) : state * list line :=
